@@ -141,13 +141,25 @@ var (
 	progressMu   sync.Mutex
 	progressAt   time.Time
 	progressPath []string
+	progressSeq  uint64
 )
 
 func stamp(path []string, op string) {
 	progressMu.Lock()
 	progressAt = time.Now()
 	progressPath = append(append([]string(nil), path...), op)
+	progressSeq++
 	progressMu.Unlock()
+}
+
+// StalledSeq is Stalled plus the running transition's sequence number (it changes whenever a new transition starts).
+func StalledSeq() (time.Duration, []string, uint64) {
+	progressMu.Lock()
+	defer progressMu.Unlock()
+	if progressAt.IsZero() {
+		return 0, nil, 0
+	}
+	return time.Since(progressAt), progressPath, progressSeq
 }
 
 // Stalled reports how long the current transition has been running and which one it is.
